@@ -156,7 +156,8 @@ def fd_census():
             try:
                 out[fd] = os.readlink('/proc/self/fd/%d' % fd)
             except OSError:
-                out[fd] = '?'
+                # listed but gone: the descriptor listdir() itself used for the listing (its number depends on which numbers are free)
+                continue
         return out
     finally:
         os.close(d)
